@@ -3,10 +3,44 @@ every function of the circuit crate, so that each constraint site's operands are
 sites. Gadgets of the `common` crate stay opaque (they are decided on their own by C10/C30/C31)."""
 from . import terms as T
 from . import pat as P
-from . import circ
+from . import circ, lc
 from .facts import AnchorMissing
 
 CIRCUIT_CRATE = "qp_wormhole_circuit"
+
+
+def split_pair(e, ta, tb):
+    """canonical (base_a, index_a, base_b, index_b, nest) of two operand terms of effect e (loop form independent, see lc.py)"""
+    nest = lc.Nest(e)
+    a, ia = lc.split_indexed(nest, ta)
+    b, ib = lc.split_indexed(nest, tb)
+    return a, ia, b, ib, nest
+
+
+def all_limbs(nest, ia, ib, n=4):
+    """both sides are indexed by the same loop variable and that loop visits every limb 0..n"""
+    return lc.same_var_covering(nest, ia, ib, n)
+
+
+def each_form(view, k, t, e):
+    """("each", S, body) when a sequence item appends body(x) for every element x of S, in order: push(body(x)) in a single loop
+    streaming exactly S, or extend/collect of S.map(body). Returns ("each", S, body, v): in `body` the element is ("idx", S, v)."""
+    t = P.norm(t)
+    if k == "one" and e is not None:
+        nest = lc.Nest(e)
+        if nest.depth() == 1:
+            d = nest.desc[0]
+            if not d.other and d.range is None and len(d.colls) == 1 and d.take is None:
+                return ("each", d.colls[0], nest.canon(t), nest.var(0))
+    if k == "all" and isinstance(t, tuple) and t and t[0] == "map":
+        inner = t
+        while isinstance(inner, tuple) and inner and inner[0] == "map":
+            inner = inner[1]
+        d = lc.Desc(inner)
+        if not d.other and d.range is None and len(d.colls) == 1 and d.take is None and inner == d.colls[0]:
+            dm = d.domain()
+            return ("each", inner, lc.canon(view.frame.elem(t)), ("lv", dm[0], dm[1], 0))
+    return None
 
 
 class LeafView:
@@ -175,4 +209,6 @@ def sequence_of(view, pre, effects=None):
     if n and (n.endswith("Vec::<T>::new") or n.endswith("::with_capacity") or n.endswith("::new")) and "vec" in n.lower():
         cs = T.contents(effects if effects is not None else view.effects, pre)
         return [(k, t, e) for (k, t, e) in cs]
-    return [(k, t, None) for (k, t) in T.seq_items(pre)]
+    # an initialised container (`xs.iter().map(f).collect()`, `vec![..]`, a chain) followed by appends to that same value
+    init = [(k, t, None) for (k, t) in T.seq_items(pre)]
+    return init + [(k, t, e) for (k, t, e) in T.contents(effects if effects is not None else view.effects, pre)]
